@@ -26,7 +26,7 @@ FILES = {
     "src/lib/util/preprocessor_util.rs":         ["C16", "C08", "C19", "C13", "C12"],
     "src/lib/preprocessor/lexer_helper.rs":      ["C16", "C14"],
     "src/lib/vm.rs":                             ["C19", "C09"],
-    "src/lib/arch.rs":                           ["C19"],
+    "src/lib/arch.rs":                           ["C19", "C20", "C05", "C06", "C01", "C07", "C17"],
     "src/lib/interpreter/interpreter.lalrpop":   None,     # decided per line (section of the grammar)
     "src/lib/preprocessor/preprocessor.lalrpop": ["C10", "C11", "C14", "C13", "C12", "C16", "C08"],
     "src/lib/data_parser/data_parser.lalrpop":   ["C12", "C10"],
@@ -226,7 +226,6 @@ def main():
                         rec["status"] = "tool-error"
                         rec["by"] = p
                         rec["tail"] = out[-1500:]
-                        break
         except subprocess.TimeoutExpired:
             rec["status"] = "timeout"
         rec["secs"] = round(time.time() - t0)
